@@ -67,8 +67,17 @@ def r_xpath_spell(ck: Checker) -> None:
         sets = [c for c in walk_body(f.node.body) if isinstance(c, ast.Call) and dotted(c.func) == "object.__setattr__" and [norm(a) for a in c.args] == [nodep, "'_xpath'", xv]]
         rec = [st for st in f.node.body if isinstance(st, ast.For) and norm(st.iter) == f"{nodep}.get_child_nodes()" and len(st.body) == 1
                and norm(st.body[0]) in (f"_set_xpath({norm(st.target)}, {xv})", f"_set_xpath({norm(st.target)}, parent_xpath={xv})")]
-        what = "_set_xpath stores the path on the node and recurses over all children with it"
+        what = "_set_xpath stores the path on the node and recurses over all children with it, on every path that does not raise"
         ok2 = len(sets) == 1 and len(rec) == 1
+        if ok2:
+            from ..dtree import decision_tree
+            for lf in decision_tree(strip_docstring(f.node.body)):
+                if lf.outcome == "raise":
+                    continue
+                st = lf.stmts
+                if lf.outcome != "fall" or not any(isinstance(x, ast.For) and x is rec[0] for x in st) \
+                        or not any(isinstance(x, ast.Expr) and x.value is sets[0] for x in st):
+                    ok2 = False
         (ck.holds if ok2 else ck.violation)("R-LEG-XPATH-SPELL", f, f.node, what, **({} if ok2 else {"construct": "_set_xpath: store / recursion over all children not recognised"}))
     g = ck.repo.func(LNODE, "AwareASTNode.calculate_xpath")
     body = strip_docstring(g.node.body)
@@ -118,6 +127,86 @@ def r_legacy_step(ck: Checker) -> None:
     (ck.violation if bad else ck.holds)("R-XP-SHARED", f, last, what, evaluations=len(rows), **({"construct": f"legacy _match_node_xpath: {bad[0]}"} if bad else {}))
 
 
+def r_legacy_presence(ck: Checker) -> None:
+    """Presence of a child value is an identity test against None in the legacy enumeration helpers."""
+    from ..finite import discover_atoms
+
+    n = 0
+    for q, var in (("_ensure_iterable", "value"), ("_is_field_child", "o"), ("get_child_nodes_with_field", "objects")):
+        f = ck.repo.func(LNODE, f"AwareASTNode.{q}")
+        tests = [st.test for st in walk_body(f.node.body) if isinstance(st, ast.If)]
+        bad = None
+        for t in tests:
+            atoms = discover_atoms(t)
+            if var in atoms:
+                bad = norm(t)
+        n += 1
+        what = f"legacy {q}: an absent child is recognised by `is None`, never by truthiness (node classes may define __len__/__bool__)"
+        if bad:
+            ck.violation("R-PRESENCE", f, f.node, what, construct=f"legacy {q}: `{bad}` tests the truthiness of the child value")
+        else:
+            ck.holds("R-PRESENCE", f, f.node, what, tests=len(tests))
+    f = ck.repo.func(LNODE, "AwareASTNode._ensure_iterable")
+    from ..dtree import decision_tree
+    leaves = decision_tree(strip_docstring(f.node.body))
+    bad = []
+    for lf in leaves:
+        a = lf.assign
+        if a.get("is(None,value)") is True:
+            if lf.val() != "[]":
+                bad.append(f"None yields {lf.val()}")
+        elif a.get("isinstance(value, (list, tuple))") is True:
+            if lf.val() != "value":
+                bad.append(f"a sequence yields {lf.val()}")
+        elif a.get("is(None,value)") is False and a.get("isinstance(value, (list, tuple))") is False:
+            if lf.val() != "[value]":
+                bad.append(f"a single child yields {lf.val()}")
+        else:
+            bad.append(f"undecided path {a}")
+    what = "legacy _ensure_iterable: None -> [], list/tuple -> itself, anything else -> [value]"
+    (ck.violation if bad else ck.holds)("R-PRESENCE", f, f.node, what, evaluations=len(leaves), **({"construct": f"legacy _ensure_iterable: {bad[0]}"} if bad else {}))
+
+
+def r_legacy_match_head(ck: Checker) -> None:
+    from ..dtree import bool_function
+
+    f = ck.repo.func(LXP, "_match_node_xpath")
+    body = strip_docstring(f.node.body)
+    dom = lambda k: (0, 1, 2) if k.startswith("len(") else (True, False)  # noqa: E731
+    rows = bool_function(body[:1], domain=dom)
+    k_none = "is(None,node)"
+    k_len = "len(elements)"
+    k_any = "isinstance(elements[0], ASTXpathAnywhereElement)"
+    bad = []
+    seen = False
+    for a, v, lf in rows:
+        if a.get(k_none) is not True:
+            continue
+        seen = True
+        if v is None or isinstance(v, str):
+            bad.append(f"{a}: {v}")
+            continue
+        if k_len not in a:
+            bad.append("the remaining path is not inspected")
+            continue
+        exp = a[k_len] == 0 or bool(a.get(k_any))
+        if a[k_len] != 0 and k_any not in a:
+            bad.append("a pending leading '//' (anywhere element) above the root is not accepted")
+            continue
+        if bool(v) != exp:
+            bad.append(f"{a}: returns {v}, expected {exp}")
+    if not seen:
+        bad.append("walking past the root (node is None) is not handled first")
+    what = "legacy match, above the root: the path matches iff nothing remains or only the leading-anywhere marker remains"
+    (ck.violation if bad else ck.holds)("R-XP-ANYWHERE", f, body[0], what, evaluations=len(rows), **({"construct": f"legacy _match_node_xpath: {bad[0]}"} if bad else {}))
+    # the anywhere step tries every ancestor before the node itself is tested
+    loops = [st for st in walk_body(f.node.body) if isinstance(st, ast.For)]
+    what = "legacy match: a '//' step tries every proper ancestor (node.ancestors()) with the same remaining path"
+    ok = len(loops) == 1 and norm(loops[0].iter) == "node.ancestors()" and len(loops[0].body) == 1 and isinstance(loops[0].body[0], ast.If) \
+        and norm(loops[0].body[0].test) == f"_match_node_xpath({norm(loops[0].target)}, elements)" and norm(loops[0].body[0].body[0]) == "return True"
+    (ck.holds if ok else ck.violation)("R-XP-ANYWHERE", f, f.node, what, **({} if ok else {"construct": "legacy _match_node_xpath: ancestor loop of the '//' step not recognised / wrong"}))
+
+
 def run(ck: Checker) -> None:
     ck.explanation = (
         "The traversal-schema calculus and the filter/prune truth table of C05 applied to legacy dfs/bfs (start node is the seed, exempt from "
@@ -132,7 +221,11 @@ def run(ck: Checker) -> None:
     ck.guard("R-GRAM-ARITY", lambda: r_gram_arity(ck, LXP))
     ck.guard("R-EXC-ESCAPE", lambda: r_exc_escape(ck, [(LXP, "ASTXpath.__init__", {"ASTXpathDefinitionError"}, {"xpath"})], min_guarded=1))
     ck.guard("R-XP-SHARED", lambda: r_legacy_step(ck))
+    from .c07 import r_xp_elements
+    ck.guard("R-XP-ELEMENTS", lambda: r_xp_elements(ck, LXP, min_count=1))
     ck.guard("R-LEG-XPATH-SPELL", lambda: r_xpath_spell(ck))
+    ck.guard("R-PRESENCE", lambda: r_legacy_presence(ck))
+    ck.guard("R-XP-ANYWHERE", lambda: r_legacy_match_head(ck))
     ck.require_count("R-WORKLIST", 6)
     ck.require_count("R-CTRLDEP", 3)
     ck.require_count("R-GATHER", 4)
